@@ -2,7 +2,7 @@
 //! `AccountInfo`s. Shared by C08 and C15; the Lean side is `Driver/ProgAcct.lean`.
 //!
 //! ```text
-//! setup <zc|zc0|fix|var|unit> <progid:hex32> <disc:hex> <owner:hex32> <writable:0|1> <data:hex>   -> ok
+//! setup <zc|zc0|un|fix|var|unit> <progid:hex32> <disc:hex> <owner:hex32> <writable:0|1> <data:hex>   -> ok
 //! borrow none|shared|shared7|excl      data borrow held while the following ops run        -> ok
 //! decode        AccountSetDecode::decode_accounts            -> ok | ok none | ok <borsh(v)> | err:…
 //! validate      AccountSetValidate::validate_accounts((), ctx)                   -> ok | err:…
@@ -37,7 +37,6 @@ use star_frame::{
     },
     prelude::*,
 };
-use std::ops::Deref;
 
 pub const LAMPORTS: u64 = 10_000_000_000;
 pub const FUNDER_LAMPORTS: u64 = 1_000_000_000_000_000;
@@ -49,6 +48,8 @@ pub enum Kind {
     Var,
     Zc0,
     Unit,
+    /// declared through `#[unsized_type(program_account, …)]` (2 sized bytes + a `RemainingBytes` tail)
+    Un,
 }
 impl Kind {
     pub fn name(self) -> &'static str {
@@ -58,15 +59,16 @@ impl Kind {
             Kind::Var => "var",
             Kind::Zc0 => "zc0",
             Kind::Unit => "unit",
+            Kind::Un => "un",
         }
     }
     pub fn is_zc(self) -> bool {
-        matches!(self, Kind::Zc | Kind::Zc0)
+        matches!(self, Kind::Zc | Kind::Zc0 | Kind::Un)
     }
     /// bytes the type's body needs behind the discriminant (smallest valid body)
     pub fn body_ok(self) -> usize {
         match self {
-            Kind::Zc => 2,
+            Kind::Zc | Kind::Un => 2,
             Kind::Fix => 3,
             Kind::Var => 9,
             Kind::Zc0 | Kind::Unit => 0,
@@ -202,31 +204,13 @@ fn catch_str(f: impl FnOnce() -> String) -> String {
 }
 
 // ------------------------------------------------------------------------------------ zero copy
-pub trait ZcType: ProgramAccount + UnsizedType + NoUninit + Sized + 'static
-where
-    Self::Ptr: Deref<Target = Self>,
-{
-}
-impl<Z> ZcType for Z
-where
-    Z: ProgramAccount + UnsizedType + NoUninit + Sized + 'static,
-    Z::Ptr: Deref<Target = Z>,
-{
-}
-
-pub struct ZcSess<Z: ZcType>
-where
-    Z::Ptr: Deref<Target = Z>,
-{
+pub struct ZcSess<Z: ZcView> {
     acct: Option<Account<Z>>,
     core: Core,
     pid: &'static Pubkey,
 }
 
-impl<Z: ZcType> Sess for ZcSess<Z>
-where
-    Z::Ptr: Deref<Target = Z>,
-{
+impl<Z: ZcView> Sess for ZcSess<Z> {
     fn core(&self) -> &Core {
         &self.core
     }
@@ -259,11 +243,11 @@ where
                 match *op {
                     "validate" => catch_str(|| res_class(acct.validate_accounts((), &mut ctx))),
                     "data" => catch_str(|| match acct.data() {
-                        Ok(w) => format!("ok {}", hex(bytemuck::bytes_of::<Z>(&**w))),
+                        Ok(w) => format!("ok {}", hex(&Z::show(&*w))),
                         Err(e) => err_class(e),
                     }),
                     "data_mut" => catch_str(|| match acct.data_mut() {
-                        Ok(w) => format!("ok {}", hex(bytemuck::bytes_of::<Z>(&**w))),
+                        Ok(w) => format!("ok {}", hex(&Z::show(&*w))),
                         Err(e) => err_class(e),
                     }),
                     "cleanup" => catch_str(|| res_class(acct.cleanup_accounts((), &mut ctx))),
@@ -368,10 +352,7 @@ impl<T: BType> Sess for BorshSess<T> {
 }
 
 // ------------------------------------------------------------------------------------ the table
-fn zc<Z: ZcType>(pid: &'static Pubkey) -> impl Fn(Core) -> Box<dyn Sess>
-where
-    Z::Ptr: Deref<Target = Z>,
-{
+fn zc<Z: ZcView>(pid: &'static Pubkey) -> impl Fn(Core) -> Box<dyn Sess> {
     move |core| Box::new(ZcSess::<Z> { acct: None, core, pid })
 }
 
@@ -386,7 +367,9 @@ fn borsh_ctor<T: BType>(pid: &'static Pubkey) -> impl Fn(Core) -> Box<dyn Sess> 
     move |core| Box::new(BorshSess::<T> { acct: None, core, pid })
 }
 
-/// Every account type of the harness, with id and discriminant read from the REAL consts.
+/// Every account type of the harness. Program id and discriminant are the ones WRITTEN IN THE DECLARATION (the
+/// named program's `ID`; the discriminant expression, or the documented `sha256("account:<Name>")[..8]` default),
+/// not read back through `T::OwnerProgram` / `T::DISCRIMINANT` — those are the derive's output, the thing under test.
 pub fn table() -> Vec<TypeEntry> {
     let mut v: Vec<TypeEntry> = vec![];
     macro_rules! add {
@@ -394,31 +377,31 @@ pub fn table() -> Vec<TypeEntry> {
             v.push(TypeEntry {
                 kind: Kind::Zc,
                 prog_id: <$m::Prog as StarFrameProgram>::ID.to_bytes(),
-                disc: <$m::Zc as ProgramAccount>::discriminant_bytes(),
+                disc: disc_bytes::<{ $m::W }>(0).to_vec(),
                 ctor: Box::new(zc::<$m::Zc>(&$m::PID)),
             });
             v.push(TypeEntry {
                 kind: Kind::Fix,
                 prog_id: <$m::Prog as StarFrameProgram>::ID.to_bytes(),
-                disc: <$m::Fix as ProgramAccount>::discriminant_bytes(),
+                disc: disc_bytes::<{ $m::W }>(1).to_vec(),
                 ctor: Box::new(borsh_ctor::<$m::Fix>(&$m::PID)),
             });
             v.push(TypeEntry {
                 kind: Kind::Var,
                 prog_id: <$m::Prog as StarFrameProgram>::ID.to_bytes(),
-                disc: <$m::Var as ProgramAccount>::discriminant_bytes(),
+                disc: disc_bytes::<{ $m::W }>(2).to_vec(),
                 ctor: Box::new(borsh_ctor::<$m::Var>(&$m::PID)),
             });
             v.push(TypeEntry {
                 kind: Kind::Zc0,
                 prog_id: <$m::Prog as StarFrameProgram>::ID.to_bytes(),
-                disc: <$m::Zc0 as ProgramAccount>::discriminant_bytes(),
+                disc: disc_bytes::<{ $m::W }>(3).to_vec(),
                 ctor: Box::new(zc::<$m::Zc0>(&$m::PID)),
             });
             v.push(TypeEntry {
                 kind: Kind::Unit,
                 prog_id: <$m::Prog as StarFrameProgram>::ID.to_bytes(),
-                disc: <$m::Unit as ProgramAccount>::discriminant_bytes(),
+                disc: disc_bytes::<{ $m::W }>(4).to_vec(),
                 ctor: Box::new(borsh_ctor::<$m::Unit>(&$m::PID)),
             });
         };
@@ -439,9 +422,26 @@ pub fn table() -> Vec<TypeEntry> {
     v.push(TypeEntry {
         kind: Kind::Zc,
         prog_id: <p1::Prog as StarFrameProgram>::ID.to_bytes(),
-        disc: <ZcFF as ProgramAccount>::discriminant_bytes(),
+        disc: vec![0xFF],
         ctor: Box::new(zc::<ZcFF>(&p1::PID)),
     });
+    // every declaration form; the program is the one NAMED in the declaration (see progs.rs)
+    macro_rules! form {
+        ($k:ident, $ctor:ident, $t:ty, $prog:ty, $pid:expr, $disc:expr) => {
+            v.push(TypeEntry { kind: Kind::$k, prog_id: <$prog as StarFrameProgram>::ID.to_bytes(), disc: $disc, ctor: Box::new($ctor::<$t>($pid)) });
+        };
+    }
+    form!(Zc, zc, DZc, crate::DeclProg, &DECL_PID, anchor_disc("DZc"));
+    form!(Fix, borsh_ctor, DFix, crate::DeclProg, &DECL_PID, anchor_disc("DFix"));
+    form!(Un, zc, DUn, crate::DeclProg, &DECL_PID, anchor_disc("DUn"));
+    form!(Un, zc, DUnSeeds, crate::DeclProg, &DECL_PID, anchor_disc("DUnSeeds"));
+    form!(Un, zc, UnQ8, q8::Prog, &q8::PID, anchor_disc("UnQ8"));
+    form!(Un, zc, UnQ8Seeds, q8::Prog, &q8::PID, anchor_disc("UnQ8Seeds"));
+    form!(Un, zc, UnQ8Disc, q8::Prog, &q8::PID, disc_bytes::<8>(5).to_vec());
+    form!(Un, zc, UnQ8DiscSeeds, q8::Prog, &q8::PID, disc_bytes::<8>(6).to_vec());
+    form!(Zc, zc, ZcSeeds2, p2::Prog, &p2::PID, disc_bytes::<2>(5).to_vec());
+    form!(Zc, zc, ZcQ8, q8::Prog, &q8::PID, anchor_disc("ZcQ8"));
+    form!(Fix, borsh_ctor, FixQ8Seeds, q8::Prog, &q8::PID, anchor_disc("FixQ8Seeds"));
     v
 }
 
@@ -474,6 +474,7 @@ impl Interp {
                     "var" => Kind::Var,
                     "zc0" => Kind::Zc0,
                     "unit" => Kind::Unit,
+                    "un" => Kind::Un,
                     _ => return "bad-op".into(),
                 };
                 let (Some(pid), Some(disc), Some(owner), Some(data)) = (
